@@ -32,6 +32,8 @@ Definition v_time (o : option (list Z)) (below level : bool) (itv start base : Z
 Definition v_setpos_ok (o : option (list Z)) : bool :=
   match o with None => true | Some l => setpos_ok l end.
 
+Definition v_zero (o : option (list Z)) : bool := memZ 0 (opt_list o).
+
 Definition normalize2 (r : raw) : res rule :=
   let fr := r_freq r in
   let '(hh, mm, ss) := if r_isdate r then (0, 0, 0) else (r_H r, r_M r, r_S r) in
@@ -52,6 +54,7 @@ Definition normalize2 (r : raw) : res rule :=
   let bynmonthday1 := snd (v_md bymonthday0) in
   let byweekno1 := v_set (r_byweekno r) in
   let '(byweekday1, bynweekday1) := v_wd fr byweekday0 in
+  do _ <- (if v_zero bymonthday0 then Err EValue else Ok tt);       (* fix 55654b4: `if 0 in bymonthday: raise` *)
   do byhour1 <- v_time (r_byhour r) (fr <? HOURLY) (fr =? HOURLY) (r_interval r) hh 24;
   do byminute1 <- v_time (r_byminute r) (fr <? MINUTELY) (fr =? MINUTELY) (r_interval r) mm 60;
   do bysecond1 <- v_time (r_bysecond r) (fr <? SECONDLY) (fr =? SECONDLY) (r_interval r) ss 60;
@@ -433,14 +436,15 @@ Qed.
 (* ---- the time-of-day BY-part at the rule's own level *)
 
 Definition keep (itv start base num : Z) : bool :=
-  let g := Z.gcd itv base in (g =? 1) || ((num - start) mod g =? 0).
+  (0 <=? num) && (num <? base) && (let g := Z.gcd itv base in (g =? 1) || ((num - start) mod g =? 0)).
 
 Lemma construct_byset_eq itv start l base :
   construct_byset itv start l base =
   match filter (keep itv start base) l with [] => Err EValue | c => Ok c end.
 Proof.
   unfold construct_byset, keep. cbv zeta.
-  destruct (filter (fun num : Z => (Z.gcd itv base =? 1) || ((num - start) mod Z.gcd itv base =? 0)) l);
+  destruct (filter (fun num : Z => (0 <=? num) && (num <? base) &&
+                                   ((Z.gcd itv base =? 1) || ((num - start) mod Z.gcd itv base =? 0))) l);
     reflexivity.
 Qed.
 
@@ -572,16 +576,18 @@ Lemma normalize2_congr (a b : raw) :
   v_set (r_bymonth a) = v_set (r_bymonth b) -> v_set (r_byyearday a) = v_set (r_byyearday b) ->
   v_easter (r_byeaster a) = v_easter (r_byeaster b) -> v_set (r_byweekno a) = v_set (r_byweekno b) ->
   v_md (r_bymonthday a) = v_md (r_bymonthday b) ->
+  v_zero (r_bymonthday a) = v_zero (r_bymonthday b) ->
   v_wd (r_freq b) (r_byweekday a) = v_wd (r_freq b) (r_byweekday b) ->
   (forall bl lv i s, v_time (r_byhour a) bl lv i s 24 = v_time (r_byhour b) bl lv i s 24) ->
   (forall bl lv i s, v_time (r_byminute a) bl lv i s 60 = v_time (r_byminute b) bl lv i s 60) ->
   (forall bl lv i s, v_time (r_bysecond a) bl lv i s 60 = v_time (r_bysecond b) bl lv i s 60) ->
   normalize2 a = normalize2 b.
 Proof.
-  intros Hf Hi Hw Hc Hu Ht Hy Hm Hd Htr Hsp N1 N2 N3 N4 N5 N6 V1 V2 V3 V4 V5 V6 T1 T2 T3.
+  intros Hf Hi Hw Hc Hu Ht Hy Hm Hd Htr Hsp N1 N2 N3 N4 N5 N6 V1 V2 V3 V4 V5 Z0 V6 T1 T2 T3.
   unfold normalize2. rewrite Hf, Hi, Hw, Hc, Hu, Ht, Hy, Hm, Hd, Htr, Hsp, N1, N2, N3, N4, N5, N6.
   destruct (if r_isdate b then (0, 0, 0) else (r_H b, r_M b, r_S b)) as [[hh mm] ss].
-  rewrite (ctx_if v_set _ _ V1), V2, V3, V4, (ctx_if v_md _ _ V5), (ctx_if (v_wd (r_freq b)) _ _ V6).
+  rewrite (ctx_if v_set _ _ V1), V2, V3, V4, (ctx_if v_md _ _ V5), (ctx_if v_zero _ _ Z0),
+    (ctx_if (v_wd (r_freq b)) _ _ V6).
   rewrite T1, T2, T3. reflexivity.
 Qed.
 
@@ -594,7 +600,30 @@ Qed.
    end of this file: replace_setpos_empty + normalize_setpos_empty *)
 Definition replace_guard (r : raw) (u : upd) : Prop :=
   (u_bysetpos u <> None \/ r_bysetpos r <> Some []) /\
-  (u_byweekday u <> None \/ wd_guard r (ov (u_freq u) (r_freq r))).
+  (u_byweekday u <> None \/ wd_guard r (ov (u_freq u) (r_freq r))) /\
+  (* the ORIGINAL rule exists: since fix 55654b4 the constructor rejects bymonthday containing 0 (the recording
+     drops a 0, so without this the rebuilt rule would be accepted where the original arguments are not);
+     constructible_no_zero: every r that normalize accepts satisfies it *)
+  (u_bymonthday u <> None \/ v_zero (r_bymonthday r) = false).
+
+Lemma memZ_app x l1 l2 : memZ x (l1 ++ l2) = memZ x l1 || memZ x l2.
+Proof. unfold memZ. apply existsb_app. Qed.
+
+Lemma memZ_filter_false x (f : Z -> bool) l : f x = false -> memZ x (filter f l) = false.
+Proof.
+  intros H. unfold memZ. induction l as [|y t IH]; [reflexivity|]. cbn [filter].
+  destruct (f y) eqn:E; [|exact IH]. cbn [existsb]. rewrite IH.
+  destruct (x =? y) eqn:E2; [|reflexivity]. apply Z.eqb_eq in E2. subst y. congruence.
+Qed.
+
+(* the recorded bymonthday never contains 0 *)
+Lemma K_md0 r : v_zero (from_ent (o_bymonthday (record r))) = false.
+Proof.
+  unfold record. destruct (r_isdate r); cbn [o_bymonthday];
+    (match goal with |- context [if ?c then RNone else _] => destruct c end; [reflexivity|];
+     destruct (r_bymonthday r) as [l|]; [|reflexivity]; cbn [given from_ent]; unfold v_zero; cbn [opt_list];
+     rewrite memZ_app, !memZ_filter_false by reflexivity; reflexivity).
+Qed.
 
 Lemma ov_some {A : Type} (u : option A) (a b : A) : u <> None -> ov u a = ov u b.
 Proof. destruct u; [reflexivity | congruence]. Qed.
@@ -606,7 +635,11 @@ Proof. unfold record. destruct (r_isdate r); cbn [o_byhour o_byminute o_bysecond
 
 Theorem replace_only_named : forall r u, replace_guard r u -> replace r u = replace_spec r u.
 Proof.
-  intros r u [Gs Gw]. unfold replace, replace_spec, replace_raw. rewrite !normalize2_eq.
+  intros r u (Gs & Gw & Gz). unfold replace, replace_spec, replace_raw. rewrite !normalize2_eq.
+  assert (HZ : v_zero (ov (u_bymonthday u) (from_ent (o_bymonthday (record r)))) =
+               v_zero (ov (u_bymonthday u) (r_bymonthday r))).
+  { destruct (u_bymonthday u) as [v|]; [reflexivity|]. destruct Gz as [Gz|Gz]; [congruence|].
+    cbn [ov]. rewrite K_md0, Gz. reflexivity. }
   pose proof (K_month r) as [M1 M2]. pose proof (K_yearday r) as [Y1 Y2].
   pose proof (K_weekno r) as [W1 W2]. pose proof (K_easter r) as [E1 E2]. pose proof (K_md r) as [D1 D2].
   assert (HW : v_wd (ov (u_freq u) (r_freq r)) (ov (u_byweekday u) (from_ent (o_byweekday (record r)))) =
@@ -639,6 +672,7 @@ Proof.
      try (apply (ov_congr v_set); assumption);
      try (apply (ov_congr v_easter); assumption);
      try (apply (ov_congr v_md); assumption);
+     try exact HZ;
      try (intros; apply HT); try (intros; apply HT2); try (intros; apply HT3)).
 Qed.
 
@@ -669,7 +703,7 @@ Example replace_guard_example :
   (exists ru, replace (mk_raw0 YEARLY (Some [1; 3]) None) (upd_dtstart 1997 9 15) = Ok ru /\ bymonthday ru = [15]).
 Proof.
   split; [|split].
-  - split; [right; discriminate | right; left; reflexivity].
+  - split; [right; discriminate | split; [right; left; reflexivity | right; reflexivity]].
   - reflexivity.
   - eexists. split; [vm_compute; reflexivity | reflexivity].
 Qed.
@@ -712,12 +746,14 @@ Qed.
 Theorem replace_setpos_empty : forall r u,
   r_bysetpos r = Some [] -> u_bysetpos u = None ->
   (u_byweekday u <> None \/ wd_guard r (ov (u_freq u) (r_freq r))) ->
+  (u_bymonthday u <> None \/ v_zero (r_bymonthday r) = false) ->
   replace r u = replace_spec (clear_setpos r) u.
 Proof.
-  intros r u Hs Hu Gw. unfold replace, replace_raw. rewrite (rebuild_setpos_empty r Hs).
-  apply (replace_only_named (clear_setpos r) u). split.
+  intros r u Hs Hu Gw Gz. unfold replace, replace_raw. rewrite (rebuild_setpos_empty r Hs).
+  apply (replace_only_named (clear_setpos r) u). split; [|split].
   - right. cbn. discriminate.
   - destruct Gw as [Gw|Gw]; [left; exact Gw | right; exact Gw].
+  - exact Gz.
 Qed.
 
 Theorem normalize_setpos_empty : forall x, r_bysetpos x = Some [] ->
@@ -733,6 +769,7 @@ Proof.
   destruct (if isd then (0, 0, 0) else (hh0, mm0, ss0)) as [[hh mm] ss].
   destruct (negb (is_none unt) && tzm); [reflexivity|].
   match goal with |- context [v_wd ?a ?b] => destruct (v_wd a b) as [w1 w2] end.
+  match goal with |- context [v_zero ?x] => destruct (v_zero x) end; [reflexivity|].
   unfold bind.
   repeat match goal with |- context [match ?e with Ok _ => _ | Err _ => _ end] =>
     lazymatch e with
@@ -745,10 +782,11 @@ Qed.
 Theorem replace_setpos_corner : forall r u,
   r_bysetpos r = Some [] -> u_bysetpos u = None ->
   (u_byweekday u <> None \/ wd_guard r (ov (u_freq u) (r_freq r))) ->
+  (u_bymonthday u <> None \/ v_zero (r_bymonthday r) = false) ->
   replace r u = replace_spec (clear_setpos r) u /\
   apply_upd (clear_setpos r) u = clear_setpos (apply_upd r u).
 Proof.
-  intros r u Hs Hu Gw. split; [exact (replace_setpos_empty r u Hs Hu Gw) | exact (apply_upd_clear r u Hu)].
+  intros r u Hs Hu Gw Gz. split; [exact (replace_setpos_empty r u Hs Hu Gw Gz) | exact (apply_upd_clear r u Hu)].
 Qed.
 
 (* non-vacuity: rrule(WEEKLY, bysetpos=(), byweekday=(MO,WE)).replace(interval=2) *)
@@ -759,3 +797,16 @@ Example replace_setpos_example :
   (exists ru, replace r u = Ok ru /\ bysetpos ru = None /\ interval ru = 2) /\
   (exists ru', replace_spec r u = Ok ru' /\ bysetpos ru' = Some []).
 Proof. split; eexists; (split; [vm_compute; reflexivity|]); repeat split. Qed.
+
+(* the third conjunct of replace_guard excludes no existing rule: the constructor rejects a bymonthday with 0 *)
+Theorem constructible_no_zero : forall r ru, normalize r = Ok ru -> v_zero (r_bymonthday r) = false.
+Proof.
+  intros r ru H. rewrite normalize2_eq in H. unfold normalize2 in H.
+  destruct (if r_isdate r then (0, 0, 0) else (r_H r, r_M r, r_S r)) as [[hh mm] ss].
+  destruct (negb (is_none (r_until r)) && r_tzmix r); [discriminate|].
+  destruct (negb (v_setpos_ok (r_bysetpos r))); [discriminate|].
+  match type of H with context [v_wd ?a ?b] => destruct (v_wd a b) as [w1 w2] end.
+  destruct (r_bymonthday r) as [l|] eqn:E; [|reflexivity].
+  cbn [is_none] in H. rewrite !andb_false_r, !andb_false_l in H. cbn [andb] in H.
+  destruct (v_zero (Some l)); [discriminate H | reflexivity].
+Qed.
